@@ -552,11 +552,12 @@ pub fn c06(ctx: &mut Ctx) {
 // ------------------------------------------------------------------------------------------ C07
 pub fn c07(ctx: &mut Ctx) {
     let sz = if ctx.thorough {
-        Sizes { enum_size: 7, enum_free: 1, n_random: 6000, rand_size: 30 }
+        Sizes { enum_size: 8, enum_free: 1, n_random: 20000, rand_size: 30 }
     } else {
-        Sizes { enum_size: 6, enum_free: 1, n_random: 600, rand_size: 24 }
+        Sizes { enum_size: 7, enum_free: 1, n_random: 2500, rand_size: 24 }
     };
-    let uni = universe(ctx, &sz, false);
+    let mut uni = universe(ctx, &sz, false);
+    uni.extend(divergent_family(ctx));
     let big = 3000usize; // step budget no correct implementation can need here (k <= 200 by construction)
     for t in &uni {
         ctx.count(bucket(size(t)));
@@ -623,6 +624,56 @@ pub fn c07(ctx: &mut Ctx) {
         }
         head_part(ctx, t, big);
     }
+}
+
+/// terms that HAVE a normal form but contain a diverging subterm that must be discarded unreduced, placed in
+/// every kind of position: argument of a redex, any argument of a variable-headed spine (first, middle, last),
+/// under a binder in an argument, inside the operator, nested two levels deep, inside pair/list bodies
+fn divergent_family(ctx: &mut Ctx) -> Vec<Term> {
+    let om = abs(app(Var(1), Var(1)));
+    let omega = app(om.clone(), om.clone());
+    let om3 = abs(app!(Var(1), Var(1), Var(1)));
+    let k = abs!(2, Var(2));
+    let i = abs(Var(1));
+    let gadgets: Vec<Term> = vec![
+        app(abs(Var(3)), omega.clone()),                 // (λ.3) Ω   ->  2
+        app!(k.clone(), i.clone(), omega.clone()),       // K I Ω     ->  I
+        app(abs!(2, Var(1)), omega.clone()),             // (λλ.1) Ω  ->  I
+        app(abs(Var(2)), app(om3.clone(), om3.clone())), // (λ.2) (ω₃ ω₃), growing divergence
+        app(abs(abs(Var(3))), abs(omega.clone())),       // discards λ.Ω
+        app!(abs!(2, app(Var(1), Var(4))), omega.clone(), i.clone()), // (λλ.1 4) Ω I -> 2
+    ];
+    type C = Box<dyn Fn(Term) -> Term>;
+    let contexts: Vec<C> = vec![
+        Box::new(|g| g),
+        Box::new(|g| app!(Var(1), g, Var(3))),
+        Box::new(|g| app!(Var(1), Var(2), g)),
+        Box::new(|g| app!(Var(1), Var(2), g, Var(3))),
+        Box::new(|g| app!(Var(1), app(Var(2), g), Var(3))),
+        Box::new(|g| abs(app!(Var(1), g, abs(Var(1))))),
+        Box::new(|g| abs(app!(Var(1), abs(Var(1)), g, abs(Var(2))))),
+        Box::new(|g| app!(Var(1), abs(app(Var(1), g)), Var(2))),
+        Box::new(|g| app(abs(app!(Var(1), g, Var(2))), Var(5))),
+        Box::new(|g| app!(abs!(3, app!(Var(1), Var(3), Var(2))), g, abs(Var(1)))), // pair constructor applied
+        Box::new(|g| abs(abs(app!(Var(2), g.clone(), app(Var(1), g))))),
+        Box::new(|g| app!(Var(2), app!(Var(1), g, Var(1)), Var(3))),
+        Box::new(|g| app(abs(app(Var(1), Var(1))), abs(app!(Var(2), g, Var(2))))),
+    ];
+    let mut out = Vec::new();
+    for c in &contexts {
+        for g in &gadgets {
+            out.push(c(g.clone()));
+        }
+    }
+    // two-level nesting
+    for a in 0..contexts.len() {
+        let b = ctx.rng.below(contexts.len());
+        for g in gadgets.iter().take(3) {
+            out.push(contexts[a](contexts[b](g.clone())));
+        }
+    }
+    ctx.add("divergent_family_terms", out.len() as u64);
+    out
 }
 
 fn head_part(ctx: &mut Ctx, t: &Term, big: usize) {
@@ -704,9 +755,41 @@ pub fn c08(ctx: &mut Ctx) {
                 }
             }
         }
+        // UD is inert: reducing t must commute with replacing every UD by a FRESH free variable
+        // (never shifted, substituted for, or captured)
+        if ud && size(t) <= 60 {
+            let fresh = fv.iter().max().copied().unwrap_or(0) + 7;
+            let tz = ud_to_free(t, 0, fresh);
+            for &o in ORDERS.iter() {
+                let l1 = reduce_op(o, 1, t);
+                let r1 = ctx.op(&l1);
+                let l2 = reduce_op(o, 1, &tz);
+                let r2 = ctx.op(&l2);
+                if let (Some((c1, u1)), Some((c2, u2))) = (parse_reduce(&r1), parse_reduce(&r2)) {
+                    ctx.nontrivial(&l2);
+                    if c1 != c2 || ud_to_free(&u1, 0, fresh) != u2 {
+                        ctx.fail("UD is not inert: reducing with UD differs from reducing with a fresh free variable in its place (shifted, substituted for or captured)", &[l1, l2]);
+                    }
+                    ctx.count("ud_parametricity_checks");
+                }
+            }
+        }
         // apply
         if let App(p) = t {
             if let Abs(_) = p.0 {
+                if ud && size(t) <= 60 {
+                    let fresh = fv.iter().max().copied().unwrap_or(0) + 7;
+                    let l1 = format!("apply {} {}", s(&p.0), s(&p.1));
+                    let r1 = ctx.op(&l1);
+                    let l2 = format!("apply {} {}", s(&ud_to_free(&p.0, 0, fresh)), s(&ud_to_free(&p.1, 0, fresh)));
+                    let r2 = ctx.op(&l2);
+                    let d = |r: &str| r.strip_prefix("ok ").and_then(|x| { let mut it = x.split_ascii_whitespace(); codec::dec(&mut it) });
+                    if let (Some(u1), Some(u2)) = (d(&r1), d(&r2)) {
+                        if ud_to_free(&u1, 0, fresh) != u2 {
+                            ctx.fail("apply: UD is not inert (differs from a fresh free variable in its place)", &[l1, l2]);
+                        }
+                    }
+                }
                 let line = format!("apply {} {}", s(&p.0), s(&p.1));
                 let r = ctx.op(&line);
                 if let Some(rest) = r.strip_prefix("ok ") {
@@ -728,6 +811,16 @@ pub fn c08(ctx: &mut Ctx) {
                 }
             }
         }
+    }
+}
+
+/// replace every UD by the free variable number `fresh` (index `fresh + depth` at binder depth `depth`)
+fn ud_to_free(t: &Term, d: usize, fresh: usize) -> Term {
+    match t {
+        Var(0) => Var(fresh + d),
+        Var(i) => Var(*i),
+        Abs(b) => abs(ud_to_free(b, d + 1, fresh)),
+        App(p) => app(ud_to_free(&p.0, d, fresh), ud_to_free(&p.1, d, fresh)),
     }
 }
 
